@@ -112,7 +112,12 @@ def small_scope(focus, quick):
 def run(ctx, focus, n_random_quick, n_random_thorough, max_actors=4, max_ops=6, gen=None, extra=(), nontrivial=None,
         compare_outcomes=True, rule_note=""):
     quick = ctx.quick
-    progs = list(REGRESSION) + list(extra) + small_scope(focus, quick)
+    scope = small_scope(focus, quick)
+    if not quick and len(scope) > 5000:      # thorough tier: a seeded sample of the enumerated scope (the whole of it does not
+        import random                        # fit in an hour on a shared machine); the quick tier enumerates its scope entirely
+        scope = random.Random(ctx.seed * 977 + 5).sample(scope, 5000)
+        ctx.cov["small_scope_sampled"] = 5000
+    progs = list(REGRESSION) + list(extra) + scope
     n_rand = n_random_quick if quick else n_random_thorough
     for _ in range(n_rand):
         if gen is not None:
